@@ -10,7 +10,6 @@
 #include <dirent.h>
 #include <errno.h>
 #include <fcntl.h>
-#include <ftw.h>
 #include <poll.h>
 #include <pthread.h>
 #include <signal.h>
@@ -433,9 +432,9 @@ static void jtrace(void)
     if (t->side == 1 && !g_traceall && !(t->flags & ~TF_NONBLOCK) &&
         !(t->fn == F_execvp || t->fn == F__exit || t->fn == F_write))
       continue;
-    fprintf(L, "%s[\"%s\",%d,%d,%ld,%ld,%ld,%d,%d,%lld,%lld]", first ? "" : ",",
+    fprintf(L, "%s[\"%s\",%d,%d,%ld,%ld,%ld,%d,%d,%lld,%lld,%ld]", first ? "" : ",",
             wfn_name[t->fn], t->side, t->k, t->a[0], t->a[1], t->ret, t->err, t->flags,
-            (long long) t->vt0, (long long) t->vt1);
+            (long long) t->vt0, (long long) t->vt1, t->fn == F_open ? 0L : t->a[2]);
     first = 0;
   }
   fprintf(L, "]");
@@ -1145,11 +1144,51 @@ static void do_start(int h)
     }
   }
   if (hello == 1 && want_ident) request_ident(c);
+  char objs[900] = "";
+  {
+    struct stat st;
+    char b[128];
+    for (int sidx = 0; sidx < 3; sidx++) {
+      const char *kind = NULL;
+      int ok = -1;
+      if (rd[sidx]->type == REPROC_REDIRECT_HANDLE || (rd[sidx]->handle && rd[sidx]->type == 0)) {
+        kind = "handle";
+        ok = c->handles[sidx] >= 0 ? fstat(c->handles[sidx], &st) : -1;
+      } else if (rd[sidx]->file) {
+        kind = "file";
+        ok = fstat(fileno(rd[sidx]->file), &st);
+      } else if (rd[sidx]->path) {
+        kind = "path";
+        ok = stat(rd[sidx]->path, &st);
+      }
+      if (kind && ok == 0) {
+        snprintf(b, sizeof b, "%s[%d,\"%s\",%llu,%llu]", objs[0] ? "," : "", sidx, kind,
+                 (unsigned long long) st.st_dev, (unsigned long long) st.st_ino);
+        strcat(objs, b);
+      }
+    }
+    if (o.redirect.file && fstat(fileno(o.redirect.file), &st) == 0) {
+      snprintf(b, sizeof b, "%s[-1,\"sfile\",%llu,%llu]", objs[0] ? "," : "", (unsigned long long) st.st_dev,
+               (unsigned long long) st.st_ino);
+      strcat(objs, b);
+    }
+    if (o.redirect.path && stat(o.redirect.path, &st) == 0) {
+      snprintf(b, sizeof b, "%s[-1,\"spath\",%llu,%llu]", objs[0] ? "," : "", (unsigned long long) st.st_dev,
+               (unsigned long long) st.st_ino);
+      strcat(objs, b);
+    }
+    for (int fd = 0; fd < 3; fd++)
+      if (fstat(fd, &st) == 0) {
+        snprintf(b, sizeof b, "%s[%d,\"std\",%llu,%llu]", objs[0] ? "," : "", fd, (unsigned long long) st.st_dev,
+                 (unsigned long long) st.st_ino);
+        strcat(objs, b);
+      }
+  }
   op_end_fmt(r, "\"hello\":%d,\"pid\":%d,\"kids\":\"%s\",\"caller\":{\"mask\":[%lu,%lu],\"act\":%d,"
-                "\"cwd\":%d,\"env\":%d},\"lib_fds\":[%s]",
+                "\"cwd\":%d,\"env\":%d},\"lib_fds\":[%s],\"objs\":[%s]",
              hello, c->pid, kids, mask_bits(&before.mask), mask_bits(&after.mask),
              before.act_hash != after.act_hash, strcmp(before.cwd, after.cwd) != 0,
-             before.envp != after.envp || before.env_hash != after.env_hash, libfds);
+             before.envp != after.envp || before.env_hash != after.env_hash, libfds, objs);
 }
 
 static void op_read(int h, int stream, long size, int probe)
@@ -1566,6 +1605,15 @@ static void run_script(void)
       }
       fprintf(L, "{\"LINKVC\":%d}\n", r < 0 ? -errno : 0);
       free(p);
+    } else if (!strcmp(t, "PATHADD")) {
+      const char *hx = nexttok();
+      char *p = unhex(hx ? hx : "");
+      char cwd[4200], np[9000];
+      if (!getcwd(cwd, sizeof cwd)) cwd[0] = 0;
+      const char *old = getenv("PATH");
+      snprintf(np, sizeof np, "%s:%s/%s", old ? old : "/usr/bin:/bin", cwd, p);
+      setenv("PATH", np, 1);
+      free(p);
     } else if (!strcmp(t, "KIDS")) {
       fprintf(L, "{\"kids\":\"%s\"}\n", kids_state());
     } else if (!strcmp(t, "SNAP")) {
@@ -1665,14 +1713,31 @@ static void run_case(char *script, int logfd)
   fflush(L);
 }
 
-static int rm_cb(const char *p, const struct stat *st, int flag, struct FTW *f)
+// fd-relative recursive removal: works for trees deeper than PATH_MAX
+static void rm_tree_at(int dfd, const char *name, int depth)
 {
-  (void) st;
-  (void) flag;
-  (void) f;
-  return remove(p);
+  int fd = openat(dfd, name, O_RDONLY | O_DIRECTORY | O_NOFOLLOW | O_CLOEXEC);
+  if (fd < 0) {
+    unlinkat(dfd, name, 0);
+    return;
+  }
+  DIR *d = fdopendir(fd);
+  if (!d) {
+    close(fd);
+    return;
+  }
+  struct dirent *e;
+  while ((e = readdir(d))) {
+    if (!strcmp(e->d_name, ".") || !strcmp(e->d_name, "..")) continue;
+    if (e->d_type == DT_DIR && depth < 2000)
+      rm_tree_at(fd, e->d_name, depth + 1);
+    else if (unlinkat(fd, e->d_name, 0) < 0 && errno == EISDIR && depth < 2000)
+      rm_tree_at(fd, e->d_name, depth + 1);
+  }
+  closedir(d);
+  unlinkat(dfd, name, AT_REMOVEDIR);
 }
-static void rm_rf(const char *dir) { nftw(dir, rm_cb, 16, FTW_DEPTH | FTW_PHYS); }
+static void rm_rf(const char *dir) { rm_tree_at(AT_FDCWD, dir, 0); }
 
 int main(int argc, char **argv)
 {
@@ -1680,7 +1745,8 @@ int main(int argc, char **argv)
     fprintf(stderr, "usage: scen <vchild> <scratch> [--one script]\n");
     return 2;
   }
-  g_vchild = argv[1];
+  g_vchild = realpath(argv[1], NULL);
+  if (!g_vchild) g_vchild = argv[1];
   g_scratch = argv[2];
   {
     struct rlimit rl;
